@@ -29,6 +29,8 @@ type CodecEvent struct {
 	// event (PutUintNN) or the source of this stream write: a value staged in such an array and then written to the stream.
 	Val      *Term
 	TmpAlloc ssa.Value
+	// ByteVal is the value of a single byte written by append(buf, b1, b2).
+	ByteVal ssa.Value
 	// Delegate is the repository encoder whose whole output is written here (append(buf, x.Serialize()...)).
 	Delegate *ssa.Function
 }
@@ -73,6 +75,75 @@ func appendUintOf(name string) (width int, order string, ok bool) {
 		return 8, o, true
 	}
 	return 0, "", false
+}
+
+// chainLen: the length of a byte slice built by make / append / AppendUintNN in straight-line code, as a term: a
+// constant plus the lengths of the variable parts (nil if it cannot be told).
+func (fi *FuncInfo) chainLen(v ssa.Value, depth int) *Term {
+	if n, ok := staticLen(v, 0); ok {
+		return mk(KConst, itoa(n), types.Typ[types.Int], nil)
+	}
+	if depth > 40 {
+		return nil
+	}
+	add := func(a, b *Term) *Term {
+		if a == nil || b == nil {
+			return nil
+		}
+		return mk(KBin, "+", types.Typ[types.Int], nil, a, b)
+	}
+	switch x := v.(type) {
+	case *ssa.Call:
+		if bi, ok := x.Call.Value.(*ssa.Builtin); ok && bi.Name() == "append" && len(x.Call.Args) == 2 {
+			base := fi.chainLen(x.Call.Args[0], depth+1)
+			if n, ok := staticLen(x.Call.Args[1], 0); ok {
+				return add(base, mk(KConst, itoa(n), types.Typ[types.Int], nil))
+			}
+			// a variable part: its own length
+			return add(base, lenTerm(fi.Term(x.Call.Args[1])))
+		}
+		if w, _, ok := appendUintOf(CalleeName(&x.Call)); ok && len(x.Call.Args) == 3 {
+			return add(fi.chainLen(x.Call.Args[1], depth+1), mk(KConst, itoa(w), types.Typ[types.Int], nil))
+		}
+	}
+	return nil
+}
+
+func isEmptyMake(v ssa.Value) bool {
+	// make([]T, 0, constant) is compiled to new([n]T)[:0]
+	if sl, ok := v.(*ssa.Slice); ok && sl.Low == nil {
+		if _, isAl := sl.X.(*ssa.Alloc); isAl {
+			if k, ok := sl.High.(*ssa.Const); ok && k.Value != nil && constant.Sign(k.Value) == 0 {
+				return true
+			}
+		}
+	}
+	ms, ok := v.(*ssa.MakeSlice)
+	if !ok {
+		return false
+	}
+	k, ok := ms.Len.(*ssa.Const)
+	return ok && k.Value != nil && constant.Sign(k.Value) == 0
+}
+
+// chainStartsEmpty: the append chain that produced v starts from make(T, 0, n) (so offsets are absolute).
+func chainStartsEmpty(v ssa.Value, depth int) bool {
+	if depth > 40 {
+		return false
+	}
+	if isEmptyMake(v) {
+		return true
+	}
+	switch x := v.(type) {
+	case *ssa.Call:
+		if bi, ok := x.Call.Value.(*ssa.Builtin); ok && bi.Name() == "append" && len(x.Call.Args) == 2 {
+			return chainStartsEmpty(x.Call.Args[0], depth+1)
+		}
+		if _, _, ok := appendUintOf(CalleeName(&x.Call)); ok && len(x.Call.Args) == 3 {
+			return chainStartsEmpty(x.Call.Args[1], depth+1)
+		}
+	}
+	return false
 }
 
 // staticLen: the statically known length of a byte slice built by make / append / AppendUintNN in straight-line code.
@@ -541,8 +612,8 @@ func (p *Program) CodecEvents(fn *ssa.Function) []CodecEvent {
 				if w, order, ok := appendUintOf(name); ok && len(x.Call.Args) == 3 {
 					vt := fi.Term(x.Call.Args[2])
 					ev := CodecEvent{Op: "W", Width: w, Order: order, Float: containsFloatBits(vt, "math.Float64bits"), Field: innerField(vt), Pos: x.Pos(), Instr: x, Val: vt}
-					if n, ok := staticLen(x.Call.Args[1], 0); ok {
-						ev.Off = "#" + itoa(n)
+					if lt := fi.chainLen(x.Call.Args[1], 0); lt != nil {
+						ev.Off = offsetKey(lt)
 					}
 					out = append(out, ev)
 					continue
@@ -599,6 +670,23 @@ func (p *Program) CodecEvents(fn *ssa.Function) []CodecEvent {
 							out = append(out, ev)
 						}
 					case "append":
+						// append(x, b1, b2): single bytes written after x
+						if len(x.Call.Args) == 2 && isByteSlice(x.Call.Args[0].Type()) {
+							if elems := VarargElems(x.Call.Args[1]); len(elems) > 0 {
+								base := fi.chainLen(x.Call.Args[0], 0)
+								for k, el := range elems {
+									if el == nil {
+										continue
+									}
+									ev := CodecEvent{Op: "W", Width: 1, Field: "byte:" + innerField(fi.Term(el)), Pos: x.Pos(), Instr: x, ByteVal: el}
+									if base != nil {
+										ev.Off = offsetKey(mk(KBin, "+", types.Typ[types.Int], nil, base, mk(KConst, itoa(k), types.Typ[types.Int], nil)))
+									}
+									out = append(out, ev)
+								}
+								continue
+							}
+						}
 						// append(x, y...) with y a byte slice: a write of y after x
 						if len(x.Call.Args) == 2 {
 							isStr := false
@@ -616,11 +704,41 @@ func (p *Program) CodecEvents(fn *ssa.Function) []CodecEvent {
 									if n := sliceOfFixedArray(x.Call.Args[1]); n > 0 {
 										ev.Width = n
 									}
+									// a part appended to a chain that started empty: its offset is the length so far
+									if chainStartsEmpty(x.Call.Args[0], 0) {
+										if lt := fi.chainLen(x.Call.Args[0], 0); lt != nil {
+											ev.Off = offsetKey(lt)
+										}
+									}
 									if pfx := constStringIn(src); pfx != "" {
 										ev.Prefix, ev.Width, ev.Field = pfx, len(pfx), "prefix"
+										ev.Off = "" // a prefix is identified by its text, wherever the builder puts it first
 									}
 									if (src.K == KPure || src.K == KCall) && strings.HasSuffix(src.Callee(), ").Serialize") {
 										ev.Field = "Serialize(" + innerField(src) + ")"
+										if sc, ok := x.Call.Args[1].(*ssa.Call); ok && innerField(src) == "?" && len(sc.Call.Args) > 0 {
+											// the receiver is the address of a local (the loop variable): what that local holds
+											if al, isAl := sc.Call.Args[0].(*ssa.Alloc); isAl {
+												if f := innerField(fi.contentTerm(al, sc)); f != "?" {
+													ev.Field = "Serialize(" + f + ")"
+												} else if refs := al.Referrers(); refs != nil {
+													// the one whole-value store into the local (the copy of the ranged element)
+													var only *ssa.Store
+													n := 0
+													for _, r := range *refs {
+														if st, isSt := r.(*ssa.Store); isSt && st.Addr == ssa.Value(al) {
+															only = st
+															n++
+														}
+													}
+													if n == 1 && Dominates(only, sc) {
+														if f := innerField(fi.Term(only.Val)); f != "?" {
+															ev.Field = "Serialize(" + f + ")"
+														}
+													}
+												}
+											}
+										}
 										if sc, ok := x.Call.Args[1].(*ssa.Call); ok {
 											if callee := sc.Call.StaticCallee(); callee != nil && IsRepoFunc(callee) {
 												ev.Delegate = callee
